@@ -158,9 +158,10 @@ impl<'a> TypeShareVisitor<'a> {
                 .parsed_data
                 .import_types
                 .iter()
-                .find(|imp| imp.type_name == name)
-                .into_iter()
-                .next()
+                .filter(|imp| imp.type_name == name)
+                // `import_types` is a hash set: with several imports of that name take the
+                // alphabetically first crate so that the choice does not depend on the hash seed.
+                .min_by(|a, b| a.base_crate.cmp(&b.base_crate))
                 .cloned();
 
             // if found.is_none() {
